@@ -294,6 +294,21 @@ func init() {
 			}
 			return fallThrough
 		},
+		"(time.Time).Unix": func(fr *frame, a []value) value {
+			t := a[0].(structure)
+			if w, ok := t[0].(uint64); ok && w == wallConst {
+				secs := binop(fr, token.QUO, types.Typ[types.Int64], t[1], int64(1000000000))
+				return binop(fr, tokADD, types.Typ[types.Int64], secs, clockEpochUnix)
+			}
+			return fallThrough
+		},
+		"(time.Time).UnixNano": func(fr *frame, a []value) value {
+			t := a[0].(structure)
+			if w, ok := t[0].(uint64); ok && w == wallConst {
+				return binop(fr, tokADD, types.Typ[types.Int64], t[1], clockEpochUnix*1000000000)
+			}
+			return fallThrough
+		},
 		"(time.Time).Add": func(fr *frame, a []value) value {
 			t := a[0].(structure)
 			if w, ok := t[0].(uint64); ok && w&(1<<63) != 0 {
@@ -541,6 +556,17 @@ func (i *interpreter) clockAdvance(fr *frame, d value) {
 	i.clock.manual = true
 	i.clock.cur = binop(fr, tokADD, types.Typ[types.Int64], i.clock.cur, d)
 }
+
+// clockPeek reads the virtual clock without letting it move.
+func (i *interpreter) clockPeek() value {
+	if i.clock == nil {
+		return int64(1 << 40)
+	}
+	return i.clock.cur
+}
+
+// virtual epoch of the model clock, Unix seconds
+const clockEpochUnix = int64(1600000000)
 
 func (i *interpreter) timeNow(fr *frame) value {
 	return structure{wallConst, i.clockNow(fr), (*value)(nil)}
